@@ -350,7 +350,10 @@ def run_check(prop, tier="quick", base=0, jobs=None, budget=None, runs=None, out
         evidence["coverage"].pop("exhaustive")
     ev_ok = True
     try:
-        ev_dir = os.path.join(VERIF, "evidence")
+        # evidence is what the check saw of /repo itself; runs against a scratch tree
+        # (mutant self-test, older commits) must not overwrite it
+        ev_dir = os.path.join(VERIF, "evidence") if boot.REPO == "/repo" else \
+            os.path.join(VERIF, ".scratch", "evidence")
         os.makedirs(ev_dir, exist_ok=True)
         tmp = os.path.join(ev_dir, ".%s.json.tmp" % prop)
         with open(tmp, "w") as fobj:
